@@ -243,7 +243,31 @@ def check_crc(ck, prog):
                    "updating the running crc32" % (ex.show(e), bad[0][3][2])) if bad
                   else "`%s` ok" % ex.show(e),
                   key="CRC:%s:%s" % (name, ex.show(e)))
-    ck.floor("C06-CRC", 3 * 3, "obligations")
+        # ... and the converse: bytes consumed/produced in a CRC state (the CRC32 field itself) are never hashed: no
+        # update site is reachable, within the call, from an advance of the position in such a state
+        def is_advance_crc(b, i, e, states, posvar=posvar):
+            if not states or not all((g.get(s, "seq") is not None and g.get(s, "seq") <= crc_vals) for s in states):
+                return False
+            for x in ex.walk(e, into_refs=False):
+                k = x.get("k")
+                if k == "un" and x["op"] in ex.ASSIGN_UN:
+                    t = ex.strip(x["e"])
+                    if t.get("k") == "un" and t["op"] == "*" and ex.reads_var(t["e"], posvar):
+                        return True
+                elif k == "asg":
+                    t = ex.strip(x["l"])
+                    if t.get("k") == "un" and t["op"] == "*" and ex.reads_var(t["e"], posvar):
+                        return True
+            return False
+        hits2 = fd.flagflow(g, is_advance_crc, lambda b, i, e, st: False,
+                            lambda b, i, e, st: (b.id, i) in upd_set)
+        ck.ob("C06-CRC", name + ":field-not-hashed", not hits2, common.where(f, hits2[0][2] if hits2 else None),
+              "%s: no crc32 update is reachable after the position advanced inside the CRC32 field" % name if not hits2 else
+              "%s(): the running crc32 is updated (line %s) on a path on which the position already advanced inside the "
+              "CRC32 field (line %d): when a call's buffer ends inside the field, its bytes are hashed into the value they "
+              "are compared with / that is being written, so the result depends on where the buffer ends" % (
+                  name, ex.line(hits2[0][2]), hits2[0][3][2]), key="CRC:%s:field-not-hashed" % name)
+    ck.floor("C06-CRC", 3 * 4, "obligations")
 
 
 # ---------------------------------------------------------------------------
@@ -586,6 +610,8 @@ def run(ck):
          "the whole dictionary stays addressable behind read_pos after a window move"),
     ], rule="C06-PROV", floor=2)
     check_encreset(ck, prog, "C06-ENCRESET")
+    from . import C01 as _C01
+    _C01.check_emit_state(ck, prog, "C06-EMITSTATE")
     ck.rule("C06-APPLY", "an amount measured in this call (bytes used, padding found) is applied to the persistent member "
                          "it updates on every way out that the caller continues from")
     reinit.check_local_applied(ck, prog, "C06-APPLY")
